@@ -154,4 +154,47 @@ theorem removeRoute_gone {ps : List Peer} (h : RoutesOwned ps) (owner : Nat) (ri
     rw [ho] at this
     simp [this] at hne
 
+/-! ## processing a response object -/
+
+/-- Processing a response object of connection `c`: at most one value is sent, the relay for the
+    matching record of `c`'s own table, and that record leaves the table. -/
+theorem parseJsonRpc_response_spec (cfg : Config) (x : Ctx) (c : Nat) (p : Peer) (req : Json)
+    (hp : findPeer x.st.peers c = some p) (hm : req.getItem (k "method") = none)
+    (hre : (req.getItem (k "result")).isSome = true ∨ (req.getItem (k "error")).isSome = true) :
+    ∃ new, (parseJsonRpc cfg x c req).1.out = new ++ x.out ∧ (sendsOf new).length ≤ 1 ∧
+      ∀ d j b, Obs.send d j b ∈ new →
+        ∃ r ∈ p.routes, IsRelayOf r req d j ∧
+          (parseJsonRpc cfg x c req).1.st.peers = removeRoute x.st.peers c r.rid := by
+  have hc : p.conn = c := findPeer_conn hp
+  obtain ⟨typ, payload, htyp, hpay, heq⟩ := parseJsonRpc_response cfg x c p req hp hm hre
+  rw [heq]
+  have hspec := routingResponse_spec x p req payload typ
+  dsimp only at hspec
+  rcases hspec with ⟨hres, _⟩ | ⟨_, rid, hid, ⟨hres, _⟩ | ⟨r, hf, hst, hcase⟩⟩
+  · rw [hres]; exact ⟨[], rfl, by simp [sendsOf], by simp⟩
+  · rw [hres]; exact ⟨[], rfl, by simp [sendsOf], by simp⟩
+  · have hrid : r.rid = rid := by simpa using List.find?_some hf
+    have hmem : r ∈ p.routes := List.mem_of_find?_eq_some hf
+    rcases hcase with ⟨hout, _⟩ | ⟨oid, ho, hok, hout⟩
+    · refine ⟨[.timerDestroy r.timer], hout, by simp [sendsOf], ?_⟩
+      intro d j b h
+      simp at h
+    · refine ⟨[.send r.requester (.obj [(k "id", oid), (k typ, payload)]) (x.sends.headD true),
+        .timerDestroy r.timer], by simpa using hout, by simp [sendsOf], ?_⟩
+      intro d j b h
+      simp only [List.mem_cons, Obs.send.injEq, List.mem_nil_iff, or_false] at h
+      rcases h with ⟨rfl, rfl, rfl⟩ | h
+      · refine ⟨r, hmem, ⟨hm, by rw [hid, hrid], rfl, oid, typ, payload, ho, hok, htyp, hpay, rfl⟩, ?_⟩
+        rw [hst, hrid, hc]
+      · cases h
+
+/-- the responses among the values sent to `c` -/
+theorem filter_isResponse_of_method {l : List Json} (h : ∀ j ∈ l, hasMethod j = true) :
+    l.filter isResponse = [] := by
+  apply List.filter_eq_nil_iff.2
+  intro j hj hr
+  have h1 := h j hj
+  rw [isResponse_not_hasMethod hr] at h1
+  cases h1
+
 end Cjet.Daemon.C02
